@@ -602,9 +602,73 @@ void SubmitFunctors() {
 }
 }  // namespace probe
 
+namespace probe {
+// every multi-future wait form: variadic / iterator x untimed / WaitFor / WaitUntil x unique / shared / mixed
+void MultiWaits() {
+  using namespace std::chrono_literals;
+  auto [f1, p1] = yaclib::MakeContract<int>();
+  auto [f2, p2] = yaclib::MakeContract<int>();
+  auto [f3, p3] = yaclib::MakeContract<void>();
+  yaclib::Wait(f1, f2);
+  yaclib::Wait(f1, f2, f3);
+  Sink(yaclib::WaitFor(1ms, f1, f2));
+  Sink(yaclib::WaitFor(1ms, f1, f2, f3));
+  Sink(yaclib::WaitUntil(std::chrono::steady_clock::now(), f1, f2));
+  std::vector<yaclib::Future<int>> fs;
+  fs.push_back(std::move(f1));
+  fs.push_back(std::move(f2));
+  yaclib::Wait(fs.begin(), fs.end());
+  yaclib::Wait(fs.begin(), fs.size());
+  Sink(yaclib::WaitFor(1ms, fs.begin(), fs.end()));
+  Sink(yaclib::WaitFor(1ms, fs.begin(), fs.size()));
+  Sink(yaclib::WaitUntil(std::chrono::steady_clock::now(), fs.begin(), fs.end()));
+  Sink(yaclib::WaitUntil(std::chrono::steady_clock::now(), fs.begin(), fs.size()));
+  auto [sf1, sp1] = yaclib::MakeSharedContract<int>();
+  auto [sf2, sp2] = yaclib::MakeSharedContract<int>();
+  yaclib::Wait(sf1, sf2);
+  yaclib::Wait(fs[0], sf1);
+  yaclib::Wait(fs[0], sf1, sf2);
+  std::vector<yaclib::SharedFuture<int>> sfs{sf1, sf2};
+  yaclib::Wait(sfs.begin(), sfs.end());
+  yaclib::Wait(sfs.begin(), sfs.size());
+  std::move(p3).Set();
+  std::move(sp1).Set(1);
+  std::move(sp2).Set(2);
+  Sink(std::move(f3));
+  Sink(std::move(p1));
+  Sink(std::move(p2));
+}
+}  // namespace probe
+
+namespace probe {
+// move assignment of every handle kind (they rely on IntrusivePtr's same-type move assignment)
+void HandleAssignments() {
+  auto [f, p] = yaclib::MakeContract<int>();
+  auto [g, q] = yaclib::MakeContract<int>();
+  f = std::move(g);
+  p = std::move(q);
+  auto [sf, sp] = yaclib::MakeSharedContract<int>();
+  auto [sg, sq] = yaclib::MakeSharedContract<int>();
+  sf = std::move(sg);
+  sp = std::move(sq);
+  auto t = yaclib::MakeTask(1);
+  auto t2 = yaclib::MakeTask(2);
+  t = std::move(t2);
+  yaclib::FutureOn<int> fo = yaclib::MakeContractOn<int>(Exe()).first;
+  fo = yaclib::MakeContractOn<int>(Exe()).first;
+  Sink(std::move(f));
+  Sink(std::move(p));
+  Sink(std::move(sp));
+  Sink(std::move(t));
+  Sink(std::move(fo));
+}
+}  // namespace probe
+
 extern "C" void probe_async_all() {
   using namespace probe;
   SubmitFunctors();
+  MultiWaits();
+  HandleAssignments();
   for (int how = 0; how < 11; ++how) {
     ConsumerKinds<void, StopError>(how);
     ConsumerKinds<int, StopError>(how);
